@@ -65,6 +65,25 @@ type mledger struct {
 	hashes []common.Uint256 // block hash by height
 	blocks []*lblock
 	last   map[string]int // storage key -> height of the last write
+	held   [][2][]byte    // proofs served earlier: the returned slice (kept alive) and a copy taken then
+	nheld  int
+}
+
+// holdProof keeps a served proof alive and checks that every proof served earlier still reads as it did.
+func (f *mledger) holdProof(r *hx.Run, what string, p []byte) {
+	for _, h := range f.held {
+		if !bytes.Equal(h[0], h[1]) {
+			r.Viol("C08:served-proof-changed-later:"+what, "a proof served earlier reads differently after later requests to the same node")
+			break
+		}
+	}
+	f.nheld++
+	it := [2][]byte{p, append([]byte{}, p...)}
+	if len(f.held) < 64 {
+		f.held = append(f.held, it)
+	} else {
+		f.held[f.nheld%64] = it
+	}
 }
 
 type lrec struct{ key, val []byte }
@@ -343,6 +362,7 @@ func (f *mledger) Reset(r *hx.Run) {
 		os.RemoveAll(f.dir)
 	}
 	f.dir, f.gen, f.hashes, f.blocks, f.last = "", nil, nil, nil, map[string]int{}
+	f.held, f.nheld = nil, 0
 }
 
 func (f *mledger) open() error {
@@ -627,6 +647,7 @@ func (f *mledger) Exec(r *hx.Run, op []string) string {
 			}
 			return res
 		}
+		f.holdProof(r, "cross-state", proof)
 		root, _ := f.lg.GetCrossStateRoot(uint32(h))
 		if int(h)+1 < len(f.hashes) {
 			// the root relayers see: CrossStateRoot of header h+1
@@ -657,6 +678,7 @@ func (f *mledger) Exec(r *hx.Run, op []string) string {
 			}
 			return bproofErr(err)
 		}
+		f.holdProof(r, "block", proof)
 		if valid {
 			hdr, e := f.lg.GetHeaderByHeight(uint32(rr))
 			if e != nil {
